@@ -105,7 +105,7 @@ func CheckApi(sc *Scenario, out *ApiRunOut, res *RunResult) {
 		for _, c := range out.Calls {
 			if c.Op == "is_searching" && c.T1 >= 0 {
 				res.count("is_searching_checks", 1)
-				if c.BoolRet != c.Active0 {
+				if c.BoolRet != c.Active0 && !c.Window0 {
 					res.addViolation("C14", "is_searching_wrong", fmt.Sprintf("IsSearching()=%v at t=%dus but search active=%v", c.BoolRet, c.T0/1000, c.Active0))
 				}
 			}
